@@ -78,7 +78,7 @@ class C15:
             "without a converter as validation context (known, synonym and unknown prefixes), model_dump_json / "
             "model_validate_json, assignment to a frozen instance, and write_triples / read_triples through real .tsv and "
             ".tsv.gz files. Non-trivial = two references of different classes with the same pair, or an identifier "
-            "containing the separator.")
+            "containing the separator. References are obtained directly, by model_copy(update=…) / _replace from another reference that has already been printed, hashed and sorted, by model_validate, from_reference, deepcopy and pickle; the validation context is the full converter, a one-record converter or an empty converter; the text of the triples file is compared character for character with the csv model.")
     assumptions = ["Python's hash() of equal tuples is equal; pydantic's frozen config; csv and gzip: exercised, not modelled"]
     trusted_base = STD_TRUSTED[:3] + ["pydantic validation machinery, csv, gzip: exercised by the correspondence only"]
 
